@@ -188,6 +188,29 @@ impl Outcome {
     pub fn want_sample(&self) -> bool {
         self.samples.len() < MAX_SAMPLES
     }
+    /// Something a mock node reported about the traffic it received (`ProtocolViolation` events). Only
+    /// two properties are about that: C02 (a stream id reused while the node still owes the answer) and
+    /// C09 (request frames that are not valid CQL). Elsewhere it is evidence of a broken tree but not of
+    /// THIS property being violated: recorded as inconclusive, never as a violation of another property.
+    pub fn node_violation(&mut self, prop: &str, what: &str, replay: Value) {
+        let reuse = what.contains("reused while");
+        let p = prop.to_ascii_lowercase();
+        if p.starts_with("c02") || p == "e2e" {
+            if reuse {
+                self.violation("e2e:stream-id-double-booked", format!("the node received a request on a stream id it had not answered yet: {what}"), replay);
+            } else {
+                self.inconclusive(format!("a node received a malformed request frame (that is C09's business): {what}"));
+            }
+        } else if p.starts_with("c09") {
+            if reuse {
+                self.inconclusive(format!("a node saw a stream id reused while unanswered (that is C02's business): {what}"));
+            } else {
+                self.violation(format!("{prop}:malformed-frame-seen-by-node"), what.to_string(), replay);
+            }
+        } else {
+            self.inconclusive(format!("a node reported a protocol violation ({}): {what}", if reuse { "stream id reuse, C02's business" } else { "malformed frame, C09's business" }));
+        }
+    }
     pub fn violation(&mut self, signature: impl Into<String>, message: impl Into<String>, replay: Value) {
         let signature = signature.into();
         if self.violations.iter().any(|v| v.signature == signature) {
